@@ -269,10 +269,93 @@ func (lc *linCtx) condFacts(b *ssa.BasicBlock) []lin {
 				if isIndexResult(pr[0]) {
 					out = append(out, lc.expr(pr[0], 0))
 				}
+				// the result of a module helper that answers -1 or an offset at or behind one of its arguments
+				// (`indexFrom(s, sub, from)`): r != -1 gives r >= from (and r >= 0 when every other return is)
+				if call, ok := stripConv(pr[0]).(*ssa.Call); ok {
+					if cal := call.Call.StaticCallee(); cal != nil && inModule(cal) && cal.Blocks != nil && isIntType(call.Type()) {
+						lbs, nonNeg := searchHelperBounds(cal)
+						r := lc.expr(pr[0], 0)
+						if nonNeg {
+							out = append(out, r)
+						}
+						for _, k := range lbs {
+							if k < len(call.Call.Args) {
+								out = append(out, r.addScaled(lc.expr(call.Call.Args[k], 0), -1))
+							}
+						}
+					}
+				}
 			}
 		}
 	}
 	return out
+}
+
+var searchHelperMemo = map[*ssa.Function]*struct {
+	lbs    []int
+	nonNeg bool
+}{}
+
+// searchHelperBounds: for a module function with one integer result whose returns are the constant -1 or an
+// expression: the indices of the integer parameters p such that result >= p is provable at every other return, and
+// whether result >= 0 is provable there.
+func searchHelperBounds(f *ssa.Function) ([]int, bool) {
+	if m, ok := searchHelperMemo[f]; ok {
+		if m == nil {
+			return nil, false
+		}
+		return m.lbs, m.nonNeg
+	}
+	searchHelperMemo[f] = nil // recursion: nothing known
+	if f.Signature.Results().Len() != 1 {
+		return nil, false
+	}
+	lp := newLinProver()
+	var rets []*ssa.Return
+	sawMinus := false
+	for _, b := range f.Blocks {
+		r, ok := lastInstr(b).(*ssa.Return)
+		if !ok || len(r.Results) != 1 {
+			continue
+		}
+		if k, ok := r.Results[0].(*ssa.Const); ok && k.Value != nil && k.Value.Kind() == constant.Int {
+			if n, ok := constant.Int64Val(k.Value); ok && n == -1 {
+				sawMinus = true
+				continue
+			}
+		}
+		rets = append(rets, r)
+	}
+	if !sawMinus || len(rets) == 0 {
+		return nil, false
+	}
+	res := &struct {
+		lbs    []int
+		nonNeg bool
+	}{nonNeg: true}
+	for i, prm := range f.Params {
+		if !isIntType(prm.Type()) {
+			continue
+		}
+		all := true
+		for _, r := range rets {
+			g := lp.lc.expr(r.Results[0], 0).addScaled(lp.lc.expr(prm, 0), -1)
+			if !lp.prove(g, r.Block(), nil, 0) {
+				all = false
+				break
+			}
+		}
+		if all {
+			res.lbs = append(res.lbs, i)
+		}
+	}
+	for _, r := range rets {
+		if !lp.prove(lp.lc.expr(r.Results[0], 0), r.Block(), nil, 0) {
+			res.nonNeg = false
+		}
+	}
+	searchHelperMemo[f] = res
+	return res.lbs, res.nonNeg
 }
 
 // isIndexResult: the value is the result of strings.Index*, strings.LastIndex*, bytes.Index* (-1 or an offset).
@@ -711,6 +794,38 @@ func ruleTokenOrder(c *Ctx) {
 				if cal := x.Call.StaticCallee(); cal != nil && strings.HasSuffix(cal.Name(), "UTF16Len") && len(x.Call.Args) == 1 {
 					if sl, ok := stripConv(x.Call.Args[0]).(*ssa.Slice); ok && sl.Low == nil && sl.High != nil {
 						return stripConv(sl.X), sl.High
+					}
+				}
+				// a column helper (a local closure or a module function with one return) that is handed the offset:
+				// `colAt := func(offset int) uint32 { return base + 1 + uint32(UTF16Len(text[:offset])) }`
+				if cal := x.Call.StaticCallee(); cal != nil && inModule(cal) && cal.Blocks != nil && depth < 4 {
+					var ret *ssa.Return
+					nRet := 0
+					for _, b := range cal.Blocks {
+						if r, ok := lastInstr(b).(*ssa.Return); ok {
+							ret, nRet = r, nRet+1
+						}
+					}
+					if nRet == 1 && len(ret.Results) == 1 {
+						if t, h := offsetOf(ret.Results[0], depth+4); t != nil {
+							if prm, ok := stripConv(h).(*ssa.Parameter); ok {
+								for i, q := range cal.Params {
+									if q == prm && i < len(x.Call.Args) {
+										// the text is identified by the helper's own read of it (one place for every caller);
+										// a text that is itself a parameter is bound to the argument
+										if tp, ok := t.(*ssa.Parameter); ok {
+											for j, q2 := range cal.Params {
+												if q2 == tp && j < len(x.Call.Args) {
+													return stripConv(x.Call.Args[j]), x.Call.Args[i]
+												}
+											}
+											return nil, nil
+										}
+										return t, x.Call.Args[i]
+									}
+								}
+							}
+						}
 					}
 				}
 			}
